@@ -102,7 +102,7 @@ theorem C02_never_bare (p : Policy) (st : LoopState) (t : Token) (ws : List Writ
 example :
     let digits : Pat := ⟨1, fun v => v.all isDigit && !v.isEmpty⟩
     let lower : Pat := ⟨2, fun v => v.all isLowerA && !v.isEmpty⟩
-    let p : Policy := { elsAndAttrs := [(b!"b", [(b!"id", [some digits, some lower])])] }
+    let p : Policy := { initialized := true, elsAndAttrs := [(b!"b", [(b!"id", [some digits, some lower])])] }
     p.sanitizeCore b!"<b id=abc>x</b><b id=A1>y</b><b>z</b>" = b!"<b id=\"abc\">x</b>yz" := by decide
 
 end BM.Props
